@@ -220,7 +220,8 @@ func c05ResubRun(sc *c05RsScenario) (coq string, desc map[string]interface{}, pr
 		rc.SetClient(ctx, cli)
 		if _, e := rc.Connect(ctx, "cid"); e != nil {
 			cancel()
-			return "", desc, "", fmt.Errorf("resub: connect %d failed: %v", k+1, e)
+			problem = fmt.Sprintf("Connect on connection %d failed: %v", k+1, e)
+			break
 		}
 		if k == 0 {
 			for _, o := range sc.Ops {
@@ -243,7 +244,8 @@ func c05ResubRun(sc *c05RsScenario) (coq string, desc map[string]interface{}, pr
 		ch := make(chan struct{})
 		if e := rc.VerifBarrier(ch); e != nil {
 			cancel()
-			return "", desc, "", fmt.Errorf("resub: barrier: %v", e)
+			problem = fmt.Sprintf("the RetryClient refused a task on connection %d: %v", k+1, e)
+			break
 		}
 		select {
 		case <-ch:
